@@ -28,6 +28,8 @@ type Env struct {
 	errs     *[]string
 	resolver func(name string) (TVal, bool) // extra name resolution (loop variables)
 	qdepth   int                             // inside a quantifier body: no fresh symbols may be introduced
+	lets     map[string]CExpr                // contract-level let definitions, evaluated on first use
+	refOf    func(name string) (TVal, bool)  // address of a captured variable (closures)
 }
 
 func (e *Env) errorf(f string, a ...any) {
@@ -138,6 +140,13 @@ func constToTVal(c constant.Value, t types.Type) (TVal, bool) {
 
 func (e *Env) lookup(name string) (TVal, bool) {
 	if v, ok := e.vars[name]; ok {
+		return v, true
+	}
+	if le, ok := e.lets[name]; ok {
+		// a let is a macro: evaluated in the state (old/current) of its use
+		delete(e.lets, name)
+		v := e.Eval(le)
+		e.lets[name] = le
 		return v, true
 	}
 	if e.resolver != nil {
@@ -603,6 +612,21 @@ func (e *Env) evalCall(c *CCall) TVal {
 		return mathInt(ctx.BitLen(argT(0)))
 	case "wrap64", "wrapu64", "wrap32", "wrapu32", "wrapu16", "wrapu8":
 		return mathInt(app(c.Fn, argT(0)))
+	case "ref":
+		// ref(v): the address of the captured variable v (closure free variable)
+		if id, ok := c.Args[0].(*CIdent); ok && e.refOf != nil {
+			if tv, ok := e.refOf(id.Name); ok {
+				return tv
+			}
+		}
+		e.errorf("ref(): not a captured variable: %s", cexprString(c.Args[0]))
+		return mathInt("0")
+	case "typeid":
+		if s, ok := c.Args[0].(*CStr); ok {
+			return mathInt(Lit(int64(e.x.eng.typeIDByName(s.V))))
+		}
+		e.errorf("typeid expects a string literal")
+		return mathInt("0")
 	case "ghost":
 		// ghost(name): a cell of abstract state, changed only through contracts' modifies clauses
 		id, ok := c.Args[0].(*CIdent)
